@@ -41,17 +41,20 @@ def isIns (N : List String) : Instr → Bool
   | .const d ty c => N.contains d && constOk ty c
   | _ => false
 
-/-- greedy alignment of two instruction lists: keep (identical, avoiding `D ++ N`), delete (left only), insert (right only) -/
-def alignB (D N : List String) : List Instr → List Instr → Bool
-  | [], [] => true
-  | i :: r, [] => isDel D i && alignB D N r []
-  | [], i' :: r' => isIns N i' && alignB D N [] r'
-  | i :: r, i' :: r' =>
-    if i = i' ∧ avoids (D ++ N) i = true then alignB D N r r'
-    else if isDel D i then alignB D N r (i' :: r')
-    else if isIns N i' then alignB D N (i :: r) r'
+/-- greedy alignment of two instruction lists: keep (identical, avoiding `D ++ N`), delete (left only),
+    insert (right only); `fuel` bounds the number of decisions (structural recursion: kernel-evaluable) -/
+def alignF (D N : List String) : Nat → List Instr → List Instr → Bool
+  | 0, _, _ => false
+  | _ + 1, [], [] => true
+  | n + 1, i :: r, [] => isDel D i && alignF D N n r []
+  | n + 1, [], i' :: r' => isIns N i' && alignF D N n [] r'
+  | n + 1, i :: r, i' :: r' =>
+    if i = i' ∧ avoids (D ++ N) i = true then alignF D N n r r'
+    else if isDel D i then alignF D N n r (i' :: r')
+    else if isIns N i' then alignF D N n (i :: r) r'
     else false
-termination_by l l' => l.length + l'.length
+
+def alignB (D N : List String) (l l' : List Instr) : Bool := alignF D N (l.length + l'.length + 1) l l'
 
 def blocksB (D N : List String) : List Block → List Block → Bool
   | [], [] => true
